@@ -62,6 +62,8 @@ sidx = Fn("seq_idx", V, V, Int)
 isin = Fn("isin", V, V, Bool)
 getitem = Fn("getitem", V, V, V)
 # type tags for VObj values
+padd = Fn("py_add", V, V, V)           # a + b on dynamically typed operands
+iter_of = Fn("iter_of", V, V)          # the sequence a `for` loop over the value visits: itself, or the keys of a dict/set
 vlen = Fn("vlen", V, Int)              # len() of a value whose collection type is only known by tag
 astuple = Fn("astuple", V, V)
 aslist = Fn("aslist", V, V)
@@ -178,6 +180,10 @@ def base_axioms():
     A(("getitem_seq", _q([p, i], z3.Implies(z3.And(seqtag(p), 0 <= i), getitem(p, VInt(i)) == sget(p, i)),
                          [getitem(p, VInt(i))])))
     A(("getitem_map", _q([p, k], z3.Implies(maptag(p), getitem(p, k) == mat(p, k)), [getitem(p, k)])))
+    A(("py_add_int", _q([p, q], z3.Implies(z3.And(is_VInt(p), is_VInt(q)), padd(p, q) == VInt(ival(p) + ival(q))), [padd(p, q)])))
+    A(("py_add_seq", _q([p, q], z3.Implies(z3.And(seqtag(p), seqtag(q)), padd(p, q) == scat(p, q)), [padd(p, q)])))
+    A(("iter_of_seq", _q([p], z3.Implies(seqtag(p), iter_of(p) == p), [iter_of(p)])))
+    A(("iter_of_map", _q([p], z3.Implies(maptag(p), iter_of(p) == mkeys(p)), [iter_of(p)])))
     A(("vlen_seq", _q([p], z3.Implies(seqtag(p), vlen(p) == slen(p)), [vlen(p)])))
     A(("vlen_map", _q([p], z3.Implies(maptag(p), vlen(p) == slen(mkeys(p))), [vlen(p)])))
     for conv, tg in ((astuple, "tuple"), (aslist, "list")):
